@@ -490,7 +490,7 @@ def main(tier):
                        "'reclaimed after the timeout' is judged at the first coap_io_prepare_io "
                        "at or after the deadline"]
     exe = build.ensure_world("asan")
-    total = 480 if tier == "quick" else 25000
+    total = 1500 if tier == "quick" else 25000
     chunk = 6
     jobs = [(list(range(i, min(total, i + chunk))), exe) for i in range(0, total, chunk)]
     stats = {}
